@@ -69,6 +69,7 @@ function dumpvars(tag, k2) {
 }
 BEGIN {
 	if (mode == "exitbegin") { x = 1; arr["k"] = "v"; $0 = "be gin"; exit 3 }
+	if (mode == "exit-then-errend") { exit 5 }
 	if (mode == "errfunc" || mode == "spinfunc") { arr["f"] = 1; x = rec(3) }
 	if (mode == "errloop") { for (i = 3; i >= 0; i--) { y = y + 6 / i } }
 	if (mode == "errforin") { arr["a"] = 1; arr["b"] = 0; arr["c"] = 2; for (k in arr) { z = z + 1 / arr[k] } }
@@ -113,6 +114,7 @@ mode == "plain" { fc = sprintf("%c%c", "\303\251x", 233); dr = ($0 ~ ("^" "a")) 
 mode == "csv" || mode == "setmodes" { v = @"b"; fld = FIELDS[1]; cnt++; print v, fld }
 mode == "printrec" { print $1, $2; cnt++ }
 mode == "exitrule" && NR == 2 { exit 3 }
+mode == "exitrule-then-errend" && NR == 2 { exit 4 }
 mode == "exitrule" { cnt++ }
 mode == "errrule" { cnt++; x = 1 / (2 - NR) }
 mode == "spinrule" { while (1) n++ }
@@ -122,6 +124,7 @@ mode == "probe" {
 }
 END {
 	if (mode == "exitend") { $0 = "e n d"; exit 3 }
+	if (mode == "exit-then-errend" || mode == "exitrule-then-errend") { x = 1 / 0 } # END still runs after exit, and fails
 	if (mode == "probe") {
 		printf "E rec NR=%s FNR=%s FILENAME=[%s] [%s] NF=%s\n", NR, FNR, FILENAME, $0, NF
 		if (at == 2) printf "E at [%s]\n", @"b"
@@ -238,6 +241,8 @@ func c14Alphabet(thorough bool) []c14Op {
 		ex("exitbegin", c14Cfg{Stdin: "a\n", Vars: c14v("exitbegin")}),
 		ex("exitrule", c14Cfg{Stdin: "a b\nc d\ne f\n", Vars: c14v("exitrule")}),
 		ex("exitend", c14Cfg{Stdin: "a b\nc\n", Vars: c14v("exitend")}),
+		ex("exit-then-errend", c14Cfg{Stdin: "a\n", Vars: c14v("exit-then-errend")}),                     // exit 5 in BEGIN, then END fails
+		ex("exitrule-then-errend", c14Cfg{Stdin: "a b\nc d\ne f\n", Vars: c14v("exitrule-then-errend")}), // exit 4 in a rule, then END fails
 		cx("spinfunc", 1, c14Cfg{Stdin: "a\n", Vars: c14v("spinfunc")}),
 		cx("spinfunc", 50, c14Cfg{Stdin: "a\n", Vars: c14v("spinfunc")}),
 		cx("spinfunc", 1500, c14Cfg{Stdin: "a\n", Vars: c14v("spinfunc")}),
@@ -718,7 +723,7 @@ func init() {
 	core.Register(&core.Check{
 		ID:    "C14",
 		Level: "model_checking",
-		Rule: "explicit-state search over the real Interpreter: state = history of operations on one interp.Interpreter, operation = Execute/ExecuteContext with one of ~35 configurations of one program (plain, FS/RS/ORS/SUBSEP via Vars, CSV/TSV header by Config/Vars/BEGIN, Args, ARGV / ENVIRON / a global array replaced by split() or deleted and refilled, error in function (also with filled local arrays)/loop/for-in/rule, exit 3 in BEGIN/rule/END and error in a rule while a range pattern is open, context cancelled at VM step k, file and command streams left open, completed run whose context is cancelled afterwards, sandbox flags, Chars, CRLF, rejected configurations) or ResetVars/ResetRand; " +
+		Rule: "explicit-state search over the real Interpreter: state = history of operations on one interp.Interpreter, operation = Execute/ExecuteContext with one of ~37 configurations of one program (plain, FS/RS/ORS/SUBSEP via Vars, CSV/TSV header by Config/Vars/BEGIN, Args, ARGV / ENVIRON / a global array replaced by split() or deleted and refilled, error in function (also with filled local arrays)/loop/for-in/rule, exit 3 in BEGIN/rule/END, exit followed by an error in END, and error in a rule while a range pattern is open, context cancelled at VM step k, file and command streams left open, completed run whose context is cancelled afterwards, sandbox flags, Chars, CRLF, rejected configurations) or ResetVars/ResetRand; " +
 			"successor = replay of the history on a fresh Interpreter + one more operation (transitions); states de-duplicated by VerifDump() (states = distinct dumps), BFS to depth 2 (quick) / 3 (thorough); in every state 11 probe configurations x 2 oracles are run on the reused interpreter and compared with ExecProgram on a new one; distinct = distinct state dumps and probe observations",
 		Assumptions: []string{
 			"oracle 2 (no ResetVars) pins FS OFS ORS RS SUBSEP CONVFMT OFMT through Config.Vars on both sides and the probe then reads no global, array, RT, RSTART/RLENGTH, ARGV, ENVIRON or FIELDS: these are 'variables and arrays' that may carry over",
